@@ -35,7 +35,7 @@ Qed.
 (** accepted appends keep every format limit *)
 Lemma append_ok_limits i u v : fst (m_append i u v) = 0 ->
   5 <= u <= UNPADDED_MAX /\ v <= VLI_MAX /\
-  uncomp_total (recs (last_stream i)) + v <= VLI_MAX /\
+  uncompressed_size i + v <= VLI_MAX /\
   blocks_size (recs (last_stream i)) + u <= UNPADDED_MAX.
 Proof.
   unfold m_append.
@@ -164,3 +164,77 @@ Proof.
   unfold uncompressed_size in H. lia.
 Qed.
 
+
+(** ---------- the total uncompressed size of every index that can be built is a valid VLI ---------- *)
+Lemma uncomp_total_app a b : uncomp_total (a ++ b) = uncomp_total a + uncomp_total b.
+Proof. unfold uncomp_total. induction a as [|r a IH]; cbn [app fold_right]; [reflexivity|rewrite IH; lia]. Qed.
+
+Lemma all_recs_set_last i f :
+  i <> [] -> all_recs (set_last i f) = all_recs (removelast i) ++ recs (f (last_stream i)).
+Proof.
+  intro Hne. unfold set_last, last_stream.
+  destruct (rev i) as [|s r] eqn:E.
+  - exfalso. apply Hne. rewrite <- (rev_involutive i), E. reflexivity.
+  - assert (Ei : i = rev r ++ [s]) by (rewrite <- (rev_involutive i), E; reflexivity).
+    cbn [rev]. rewrite Ei, removelast_last. unfold all_recs. rewrite flat_map_app. cbn. rewrite app_nil_r. reflexivity.
+Qed.
+
+Lemma all_recs_split i : i <> [] -> all_recs i = all_recs (removelast i) ++ recs (last_stream i).
+Proof.
+  intro Hne. unfold last_stream.
+  destruct (rev i) as [|s r] eqn:E.
+  - exfalso. apply Hne. rewrite <- (rev_involutive i), E. reflexivity.
+  - assert (Ei : i = rev r ++ [s]) by (rewrite <- (rev_involutive i), E; reflexivity).
+    rewrite Ei at 1 2. rewrite removelast_last. unfold all_recs. rewrite flat_map_app. cbn. rewrite app_nil_r. reflexivity.
+Qed.
+
+Inductive reachable : mindex -> Prop :=
+| R_init : reachable m_init
+| R_append i u v : reachable i -> reachable (snd (m_append i u v))
+| R_flags i c : reachable i -> reachable (snd (m_stream_flags i c))
+| R_padding i p : reachable i -> reachable (snd (m_stream_padding i p))
+| R_cat a b : reachable a -> reachable b -> reachable (snd (m_cat a b)).
+
+Lemma set_last_nonempty i f : i <> [] -> set_last i f <> [].
+Proof.
+  intro H. unfold set_last. destruct (rev i) as [|s r] eqn:E.
+  - exact H.
+  - cbn [rev]. intro K. apply app_eq_nil in K. destruct K as [_ K]. discriminate K.
+Qed.
+
+Lemma set_last_same_recs i f : i <> [] -> (forall s, recs (f s) = recs s) ->
+  all_recs (set_last i f) = all_recs i.
+Proof.
+  intros Hne Hf. rewrite (all_recs_set_last i f Hne), Hf. symmetry. apply all_recs_split. exact Hne.
+Qed.
+
+Theorem reachable_total_is_vli i : reachable i -> i <> [] /\ uncompressed_size i <= VLI_MAX.
+Proof.
+  induction 1 as [|i u v Hr [Hne IH]|i c Hr [Hne IH]|i p Hr [Hne IH]|a b Ha [Hna IHa] Hb [Hnb IHb]].
+  - split; [discriminate|]. cbn. unfold VLI_MAX. lia.
+  - destruct (N.eq_dec (fst (m_append i u v)) 0) as [E|E].
+    + pose proof (append_ok_limits i u v E) as [_ [_ [HL _]]].
+      unfold m_append in *.
+      destruct ((u <? 5) || (UNPADDED_MAX <? u) || (VLI_MAX <? v)); [cbn in E; discriminate|].
+      repeat match goal with |- context [if ?b then _ else _] => destruct b; [cbn in E; try discriminate|] end.
+      cbn [snd]. split; [apply set_last_nonempty; exact Hne|].
+      unfold uncompressed_size in *. rewrite (all_recs_set_last i _ Hne). cbn [recs].
+      rewrite app_assoc, <- (all_recs_split i Hne), uncomp_total_app. cbn. lia.
+    + rewrite (append_refused_unchanged i u v E). split; assumption.
+  - unfold m_stream_flags. destruct (15 <? c); cbn [snd]; [split; assumption|].
+    split; [apply set_last_nonempty; exact Hne|].
+    unfold uncompressed_size. rewrite set_last_same_recs; [exact IH|exact Hne|reflexivity].
+  - unfold m_stream_padding. destruct ((VLI_MAX <? p) || negb (p mod 4 =? 0)); cbn [snd]; [split; assumption|].
+    destruct (VLI_MAX <? _); cbn [snd]; [split; assumption|].
+    split; [apply set_last_nonempty; exact Hne|].
+    unfold uncompressed_size. rewrite set_last_same_recs; [exact IH|exact Hne|reflexivity].
+  - destruct (N.eq_dec (fst (m_cat a b)) 0) as [E|E].
+    + rewrite (cat_ok_is_concatenation a b E).
+      split; [intro K; apply app_eq_nil in K; destruct K; contradiction|].
+      unfold m_cat in E.
+      destruct ((VLI_MAX <? file_size a + file_size b) || (VLI_MAX <? uncompressed_size a + uncompressed_size b)) eqn:C;
+        [cbn in E; discriminate|].
+      apply orb_false_iff in C. destruct C as [_ C]. apply N.ltb_ge in C.
+      unfold uncompressed_size in *. rewrite all_recs_app, uncomp_total_app. exact C.
+    + rewrite (cat_refused_unchanged a b E). split; assumption.
+Qed.
